@@ -29,10 +29,9 @@ namespace BitSerializer
 			auto LastIt = cont.begin();
 			for (auto it = LastIt; it != cont.end() && !arrayScope.IsEnd(); ++it, ++loadedItems)
 			{
-				// An existing item that was not loaded (e.g. null) must not keep its previous content
-				if (!Serialize(arrayScope, *it)) {
-					*it = TValue();
-				}
+				// An existing item must not keep anything of its previous content (see SerializeContainer)
+				*it = TValue();
+				Serialize(arrayScope, *it);
 				LastIt = it;
 			}
 			// Load all left items
